@@ -75,10 +75,18 @@ func (h *harness) paillier2048(flipBudget int) {
 		h.res.Note("2048-bit Paillier proofs skipped: %v", err)
 		return
 	}
+	if os.Getenv("C08_P2048") == "range" { // debugging aid: only the range proof
+		h.rangeProof(keys, flipBudget)
+		return
+	}
 	t0 := time.Now()
 	h.paillierN(keys)
 	t1 := time.Now()
-	h.blumMod(keys, flipBudget)
+	// one verification of blummod / range costs several seconds with a 2048-bit modulus
+	// (128 repetitions): thorough tier only
+	if h.thorough || h.a.Search {
+		h.blumMod(keys, flipBudget)
+	}
 	t2 := time.Now()
 	h.lpProof(keys)
 	t3 := time.Now()
@@ -237,7 +245,7 @@ func (h *harness) rangeProof(keys map[string]*paillier.SecretKey, flipBudget int
 		proto := must(paillierrange.NewPaillierRange(128, l, sk, rec))
 		n := sk.PlaintextGroup().Modulus()
 		mk := func() (*paillierrange.Statement, *paillierrange.Witness) {
-			xb := new(big.Int).Add(lBig, r.BigBelow(lBig)) // in the middle third [l, 2l)
+			xb := r.BigBelow(lBig) // the witness range [0, l)
 			xn := must(num.N().FromNatCT(numct.NewNatFromBig(xb, xb.BitLen())))
 			x := must(paillier.NewPlaintextFromNat(xn, n))
 			c, nonce, err := encryption.Encrypt(x, sk.Public(), r)
